@@ -211,6 +211,9 @@ class Heritability(Harness):
     def inputs(self, mk):
         n, m, t = self.params["n"], self.params["m"], self.params["t"]
         inp = dict(u=mk.real("u", (m, t), lo=-4, hi=4), ud=mk.real("d", (m, t), lo=-4, hi=4), beta=mk.real("b", (1, t), lo=-4, hi=4))
+        # the other variance components are arbitrary (non-zero values reachable): the target concerns genetic vs error variance only
+        inp["venv"] = mk.real("venv", (t,), lo=0, hi=9)
+        inp["vrep"] = mk.real("vrep", (t,), lo=0, hi=9)
         if self.params.get("vector"):
             inp["h"] = mk.real("h", (t,), lo=0, hi=1, lo_open=True)
         else:
@@ -223,7 +226,7 @@ class Heritability(Harness):
         cls = self.params.get("cls", "G_E_Phenotyping")
         C = getattr(importlib.import_module(PT + cls), cls)
         gm = _model(inp, t, dom=True)
-        pt = C(gpmod=gm, nenv=1, nrep=1, var_err=numpy.repeat(0.5, t)) if cls == "G_E_Phenotyping" else C(gpmod=gm)
+        pt = C(gpmod=gm, nenv=1, nrep=1, var_env=inp["venv"], var_rep=inp["vrep"], var_err=numpy.repeat(0.5, t)) if cls == "G_E_Phenotyping" else C(gpmod=gm)
         pg = _pg(n, m)
         if self.params["which"] == "h2":
             pt.set_h2(inp["h"], pg)
@@ -245,8 +248,8 @@ class Heritability(Harness):
             else:
                 P.prove(ve >= 0, "error-variance-is-non-negative")
                 P.prove(Implies(g > 0, And(g + ve > 0, g == h * (g + ve))), "genetic/(genetic+error)=target")
-            P.prove(P.eq(cell(out["var_env"], tr), 0.0), "other-variance-components-untouched")
-            P.prove(P.eq(cell(out["var_rep"], tr), 0.0), "other-variance-components-untouched")
+            P.prove(P.eq(cell(out["var_env"], tr), cell(inp["venv"], tr)), "other-variance-components-untouched")
+            P.prove(P.eq(cell(out["var_rep"], tr), cell(inp["vrep"], tr)), "other-variance-components-untouched")
 
 
 class MeanBV(Harness):
